@@ -42,7 +42,12 @@ problem => a broken obligation of C17):
                `.tocsr()`, `scipy.sparse.csr_matrix(M)`; labels: `util.index_labels(labels)[0]` (EXTERN: codes equal exactly for
                labels equal after str.lower), `np.triu(np.equal.outer(e, e))` and `zip(*np.where(<that>))` (the index pairs
                i <= j with equal codes, row-major), `frames[i]` (IndexError), `slice(*list(<pair>))`,
-               `enumerate(zip(a, b), 1)`.  A parameter documented `number or ndarray` (`_round`) gives one definition per kind that is used
+               `enumerate(zip(a, b), 1)`; the public functions: `if p is None: A else: B` on an optional parameter (a `match`,
+               p narrowed in B; a `raise` inside a branch aborts it), `x = None` joined with a value (an `Option`),
+               `validate_hier_intervals(h)` (EXTERN: the hand model's `validateHier`), `util.f_measure(p, r, beta=b)` (the
+               already regenerated `Mir.Gen.util.f_measure`); an `int(...)` frame count passed to a kernel whose parameter is a
+               natural goes through the CHECKED cast `natOfIntOpt` (error `other` when negative; proved unreachable).
+               A parameter documented `number or ndarray` (`_round`) gives one definition per kind that is used
                (`_round` for numbers, `_round_nd` for (n, 2) arrays).
 
 `python harness/translate/hierarchy.py [repo]` prints the generated file.
@@ -62,7 +67,7 @@ except ImportError:  # run as a script
     from translate.segindex import Unsupported, ident, indent, lean_rat, dotted, assigned_names
 
 # functions of mir_eval/hierarchy.py, in emission order; REQUIRED: one that leaves the subset is a translator problem
-WANTED = ["_count_inversions", "_compare_frame_rankings", "_gauc", "_round", "_hierarchy_bounds", "_lca", "_meet"]
+WANTED = ["_count_inversions", "_compare_frame_rankings", "_gauc", "_round", "_hierarchy_bounds", "_lca", "_meet", "tmeasure", "lmeasure"]
 
 NAT, INT, RAT, BOOL, UNIT = ("nat",), ("int",), ("rat",), ("bool",), ("unit",)
 SLICE, ISLICE, MAT, ROW = ("slice",), ("islice",), ("mat",), ("row",)
@@ -109,7 +114,17 @@ DECL.update({
 })
 POLY_KINDS = [(RAT, ""), (IVALS, "_nd")]
 # declared preconditions `p > 0`
-POSITIVE = {"_round": ["frame_size"], "_lca": ["frame_size"], "_meet": ["frame_size"]}
+DECL.update({
+    "tmeasure": [("reference_intervals_hier", HIER, r"list of ndarray"), ("estimated_intervals_hier", HIER, r"list of ndarray"),
+                 ("transitive", BOOL, r"bool"), ("window", OPT(RAT), r"float > 0"), ("frame_size", RAT, r"float > 0"),
+                 ("beta", RAT, r"float > 0")],
+    "lmeasure": [("reference_intervals_hier", HIER, r"list of ndarray"), ("reference_labels_hier", LABHIER, r"list of list of str"),
+                 ("estimated_intervals_hier", HIER, r"list of ndarray"), ("estimated_labels_hier", LABHIER, r"list of ndarray"),
+                 ("frame_size", RAT, r"float > 0"), ("beta", RAT, r"float > 0")],
+})
+# (`frame_size` of tmeasure / lmeasure is NOT declared positive: the functions check it themselves, and the translated check is
+# what establishes the precondition of `_lca` / `_meet` / `_round` at their call sites)
+POSITIVE = {"_round": ["frame_size"], "_lca": ["frame_size"], "_meet": ["frame_size"], "tmeasure": ["beta"], "lmeasure": ["beta"]}
 
 
 def lean_type(t):
@@ -198,6 +213,8 @@ def coerce(e, to, node=None):
         return "(%s)" % ", ".join(coerce(x, t, node) for x, t in zip(e.elts, to[1]))
     if to[0] == "opt" and e.ty == to[1]:
         return "(some %s)" % e.term
+    if to[0] == "opt" and e.ty == UNIT:
+        return "none"
     raise Unsupported("cannot convert %s to %s" % (show_type(e.ty), show_type(to)), node)
 
 
@@ -264,10 +281,10 @@ def terminates(sts):
     return False
 
 
-def has_exit(sts):
+def has_return(sts):
     for st in sts:
         for nd in ast.walk(st):
-            if isinstance(nd, (ast.Return, ast.Raise)):
+            if isinstance(nd, ast.Return):
                 return True
     return False
 
@@ -507,9 +524,12 @@ class Body:
         binds = []
         if isinstance(target, ast.Name):
             e = self.expr(value, env, binds)
-            if e.ty == UNIT:
-                raise Unsupported("binding None", node)
             x = target.id
+            if e.ty == UNIT:
+                # `x = None`: the name holds no value on this path; admitted only where a `match` joins it with a value
+                env2 = dict(env)
+                env2[x] = UNIT
+                return self.bind_lines(binds) + cont(env2)
             if x in env and env[x] != e.ty:
                 if env[x] in NUMERIC and e.ty in NUMERIC and NUMERIC.index(e.ty) < NUMERIC.index(env[x]):
                     e = E(coerce(e, env[x], node), env[x])        # `score = 0` after `score = 0.0`
@@ -564,9 +584,11 @@ class Body:
             x = t.left.id
             if x not in env or env[x][0] != "opt":
                 raise Unsupported("`is None` on a value that is not an optional parameter", s)
-            if s.orelse or len(s.body) != 1 or not (isinstance(s.body[0], ast.Assign) and len(s.body[0].targets) == 1
-                                                     and isinstance(s.body[0].targets[0], ast.Name)
-                                                     and s.body[0].targets[0].id == x):
+            if s.orelse:
+                return self.if_none_else(s, x, env, cont)
+            if len(s.body) != 1 or not (isinstance(s.body[0], ast.Assign) and len(s.body[0].targets) == 1
+                                        and isinstance(s.body[0].targets[0], ast.Name)
+                                        and s.body[0].targets[0].id == x):
                 raise Unsupported("`if p is None:` with a body other than `p = <e>`", s)
             binds = []
             env0 = dict(env)
@@ -594,8 +616,8 @@ class Body:
                 self.positive.add(guard_pos)
             else_lines = self.stmts(list(s.orelse), dict(env), cont)
             return pre + ["if %s then do" % c] + indent(then_lines) + ["else do"] + indent(else_lines)
-        if has_exit(s.body) or has_exit(s.orelse):
-            raise Unsupported("an `if` with a return / raise on some but not all paths of a branch", s)
+        if has_return(s.body) or has_return(s.orelse):
+            raise Unsupported("an `if` with a return on some but not all paths of a branch", s)
         # fall-through `if`: ONE monadic binding of the names it (re-)assigns
         wr_a, wr_b = stored_names(list(s.body)), stored_names(list(s.orelse))
         names = sorted(n for n in wr_a + [m for m in wr_b if m not in wr_a]
@@ -627,7 +649,8 @@ class Body:
 
         def close(lines, envb):
             vals = [coerce(E(ident(n), envb[n]), t, s) for n, t in zip(names, tys)]
-            return lines[:-1] + ["pure %s" % (vals[0] if len(vals) == 1 else "(%s)" % ", ".join(vals))]
+            pad = lines[-1][:len(lines[-1]) - len(lines[-1].lstrip())]
+            return lines[:-1] + [pad + "pure %s" % (vals[0] if len(vals) == 1 else "(%s)" % ", ".join(vals))]
         la, lb = close(la, ea), close(lb, eb)
         env2 = dict(env)
         for n, t in zip(names, tys):
@@ -635,6 +658,65 @@ class Body:
         out = pre + ["let %s : %s ← (if %s then (do" % (tup, ty, c)] + indent(la, 4)
         out[-1] += ")"
         out += ["  else (do"] + indent(lb, 4)
+        out[-1] += "))"
+        return out + cont(env2)
+
+    def if_none_else(self, s, x, env, cont):
+        """`if p is None: A else: B` for an optional p, both branches falling through (a `raise` inside aborts the
+        do-block): ONE monadic binding of the names the branches assign, by `match p`; p is narrowed in B"""
+        if has_return(s.body) or has_return(s.orelse) or terminates(s.body) or terminates(s.orelse):
+            raise Unsupported("`if p is None: ... else: ...` with a return / a terminated branch", s)
+        wr_a, wr_b = stored_names(list(s.body)), stored_names(list(s.orelse))
+        names = sorted(n for n in wr_a + [m for m in wr_b if m not in wr_a] if n in env or (n in wr_a and n in wr_b))
+        if not names or x in names:
+            raise Unsupported("`if p is None: ... else: ...` that assigns nothing / assigns p", s)
+        results = []
+
+        def branch(sts, envb):
+            def done(e):
+                results.append(e)
+                return ["pure ?"]
+            return self.stmts(list(sts), envb, done)
+        saved_owned, saved_pos = set(self.owned), set(self.positive)
+        env_a = dict(env)
+        del env_a[x]
+        la = branch(s.body, env_a)
+        owned_a = set(self.owned)
+        self.owned, self.positive = set(saved_owned), set(saved_pos)
+        env_b = dict(env)
+        env_b[x] = env[x][1]
+        lb = branch(s.orelse, env_b)
+        self.owned &= owned_a
+        self.positive = saved_pos - set(names)
+        if len(results) != 2:
+            raise Unsupported("a branch of `if p is None` reaches its end on several paths", s)
+        ea, eb = results
+        tys = []
+        for n in names:
+            if n not in ea or n not in eb:
+                raise Unsupported("%s is assigned on one branch only and was not defined before" % n, s)
+            ta, tb = ea[n], eb[n]
+            if ta == UNIT and tb != UNIT:
+                t = OPT(tb) if tb[0] != "opt" else tb
+            elif tb == UNIT and ta != UNIT:
+                t = OPT(ta) if ta[0] != "opt" else ta
+            else:
+                t = join(ta, tb, s)
+            tys.append(t)
+        tup = ident(names[0]) if len(names) == 1 else "(%s)" % ", ".join(ident(n) for n in names)
+        ty = lean_type(tys[0]) if len(names) == 1 else lean_type(TUP(tys))
+
+        def close(lines, envb):
+            vals = [coerce(E(ident(n) if envb[n] != UNIT else "()", envb[n]), t, s) for n, t in zip(names, tys)]
+            pad = lines[-1][:len(lines[-1]) - len(lines[-1].lstrip())]
+            return lines[:-1] + [pad + "pure %s" % (vals[0] if len(vals) == 1 else "(%s)" % ", ".join(vals))]
+        la, lb = close(la, ea), close(lb, eb)
+        env2 = dict(env)
+        for n, t in zip(names, tys):
+            env2[n] = t
+        out = ["let %s : %s ← (match %s with" % (tup, ty, ident(x)), "  | none => (do"] + indent(la, 6)
+        out[-1] += ")"
+        out += ["  | some %s => (do" % ident(x)] + indent(lb, 6)
         out[-1] += "))"
         return out + cont(env2)
 
@@ -1083,6 +1165,16 @@ class Body:
                 raise Unsupported("call of a local", node)
             if self.is_builtin(f.id):
                 return self.builtin(f.id, node, env, binds)
+            if f.id == "validate_hier_intervals" and len(node.args) == 1 and not node.keywords:
+                # EXTERN: bound to the hand model's `validateHier` (its warnings are not modelled)
+                defs = self.m.funcs.get(f.id)
+                if not defs or len(defs) != 1 or f.id in self.m.assigned or len(defs[0].args.args) != 1:
+                    raise Unsupported("validate_hier_intervals is not a single one-parameter top-level function", node)
+                hx = self.expr(node.args[0], env, binds)
+                if hx.ty != HIER:
+                    raise Unsupported("validate_hier_intervals of a %s" % show_type(hx.ty), node)
+                tmp = self.bind(binds, "%svalidate_hier_intervals %s" % (P, hx.term), UNIT)
+                return E(tmp, UNIT)
             return self.call_translated(f.id, node, env, binds)
         # ---- methods of local values ----------------------------------------------------------
         if isinstance(f, ast.Attribute) and not (name and name.split(".")[0] not in env):
@@ -1118,6 +1210,14 @@ class Body:
             if t.ty == IVALS:
                 return E("(%smapIvals (fun _v => %snpMod _v %s) %s)" % (P, P, ident(m.id), t.term), IVALS)
             raise Unsupported("np.mod of a %s" % show_type(t.ty), node)
+        if name == "util.f_measure" and len(args) == 2 and [k.arg for k in node.keywords] == ["beta"]:
+            # the already regenerated `Mir.Gen.util.f_measure` (MirGen/Scalars.lean, part `scalars`)
+            a, b = self.expr(args[0], env, binds), self.expr(args[1], env, binds)
+            c = self.expr(node.keywords[0].value, env, binds)
+            if a.ty != RAT or b.ty != RAT or c.ty != RAT:
+                raise Unsupported("util.f_measure on (%s, %s, beta=%s)" % (show_type(a.ty), show_type(b.ty), show_type(c.ty)), node)
+            tmp = self.bind(binds, "Mir.Gen.util.f_measure %s %s %s" % (a.term, b.term, c.term), RAT)
+            return E(tmp, RAT)
         if name == "np.equal.outer" and len(args) == 2 and nokw:
             if not (isinstance(args[0], ast.Name) and isinstance(args[1], ast.Name) and args[0].id == args[1].id):
                 raise Unsupported("np.equal.outer of two different arrays", node)
@@ -1273,6 +1373,12 @@ class Body:
                 if pn in sig.positive and not (isinstance(src, ast.Name) and src.id in self.positive):
                     raise Unsupported("the precondition %s > 0 of %s is not established at this call" % (pn, fid), node)
                 e = self.expr(src, env, binds)
+                if pt == OPT(NAT) and e.ty == OPT(INT):
+                    # a frame count computed with int(...): checked cast (error `other` when negative: outside the kernel's
+                    # modelled domain; `Gen = model` proves it unreachable)
+                    tmp = self.bind(binds, "%snatOfIntOpt %s" % (P, e.term), OPT(NAT))
+                    terms.append(tmp)
+                    continue
                 terms.append(coerce(e, pt, node))
             elif pd is not None:
                 terms.append(self.default_term(pd, pt))
